@@ -139,7 +139,8 @@ def run(repo, rep, tier):
             if env == '_methodcall':
                 # InvokeMethod passes the user's MethodName
                 continue
-            ok = isinstance(first, ast.Name) and first.id == 'method_name'
+            ok = isinstance(first, ast.Name) and \
+                first.id == op.method_name_var
             r5.ob(ok, f.name + ':first-arg')
             if not ok:
                 rep.finding(r5, f.qualname, norm(c.func) + '(' +
@@ -250,14 +251,18 @@ def run(repo, rep, tier):
         r3.functions.add(hf.fq)
         ok = False
         body = hf.body
+        # the variable is identified by its role: the one the helper returns
+        rv = norm(body[-1].value) if body and \
+            isinstance(body[-1], ast.Return) and \
+            isinstance(body[-1].value, ast.Name) else None
         for i, s in enumerate(body):
-            if isinstance(s, ast.If) and norm(s.test) == 'namespace is None' \
+            if rv and isinstance(s, ast.If) and \
+                    norm(s.test) == '%s is None' % rv \
                     and any(isinstance(x, ast.Assign) and
-                            norm(x) == 'namespace = self.default_namespace'
+                            norm(x) == '%s = self.default_namespace' % rv
                             for x in s.body):
                 rest = body[i + 1:]
                 if rest and isinstance(rest[-1], ast.Return) and \
-                        norm(rest[-1].value) == 'namespace' and \
                         all(not isinstance(x, ast.Assign) for x in rest[:-1]):
                     ok = True
         r3.ob(ok, h + ':default')
